@@ -23,7 +23,7 @@ RULE = (
     "default bijector with `upper` sampled too); two independent blocks with kernels of the same type (cross-moment "
     "statistics); a variance sampled on its original scale (NaN density outside the support); thousands of independent chains per configuration, "
     "T in {1,5,20} fixed-tuning transitions (burn-in epoch), per-chain data. Two-stage rule on paired z and KS "
-    "statistics. Also: rank-deficient smooth with a proper prior on the null direction; hierarchical mixture (prior scale of a parameter depends on the discrete variable); schedules run as five jitted chunks over a burn-in and a posterior epoch. non-trivial = configuration whose chains actually moved (move rate > 0.05 and mean |theta_T - "
+    "statistics. Also: rank-deficient smooth with a proper prior on the null direction; hierarchical mixture (prior scale of a parameter depends on the discrete variable); schedules run as five jitted chunks over a burn-in and a posterior epoch. Round 5: a user Gibbs step reading a helper Calc from the model state. non-trivial = configuration whose chains actually moved (move rate > 0.05 and mean |theta_T - "
     "theta_0| > 0.1 prior sd); distinct by configuration name x T"
 )
 REQUIRED = ["paired_moment_statistics", "ks_against_prior", "two_stage_statistics", "chains_moved"]
